@@ -33,8 +33,9 @@ type FuncFact struct {
 }
 
 type Facts struct {
-	Consts map[string]string   `json:"consts"`
-	Funcs  map[string]FuncFact `json:"funcs"`
+	Consts      map[string]string   `json:"consts"`
+	Funcs       map[string]FuncFact `json:"funcs"`
+	ServerSteps map[string][]string `json:"server_steps,omitempty"`
 }
 
 func leanName(s string) string {
@@ -112,6 +113,7 @@ func main() {
 	repo := flag.String("repo", "/repo", "")
 	out := flag.String("out", "", "directory for generated Lean files")
 	factsPath := flag.String("facts", "", "facts.json path")
+	instrDir := flag.String("instr", "", "directory for instrumented copies of the server files (C13 harness overlay)")
 	flag.Parse()
 
 	cfg := &packages.Config{
@@ -185,6 +187,23 @@ func main() {
 						Sync: syncOps(p.Fset, p.TypesInfo, d.Body),
 						File: filepath.Base(p.Fset.Position(d.Pos()).Filename),
 					}
+				}
+			}
+		}
+	}
+	// server / event-loop step lists (C13); must run after the fingerprints: -instr rewrites the AST
+	for _, p := range pkgs {
+		if p.Name == "netpoll" {
+			steps, err := serverFacts(p, *instrDir)
+			if err != nil {
+				fmt.Fprintln(os.Stderr, "server facts:", err)
+				os.Exit(2)
+			}
+			facts.ServerSteps = steps
+			if *out != "" {
+				if err := writeServerLean(*out, steps); err != nil {
+					fmt.Fprintln(os.Stderr, err)
+					os.Exit(2)
 				}
 			}
 		}
